@@ -3,6 +3,9 @@ package main
 import (
 	"context"
 	"fmt"
+	distributed "github.com/wealdtech/go-eth2-wallet-distributed"
+	keystorev4 "github.com/wealdtech/go-eth2-wallet-encryptor-keystorev4"
+	scratch "github.com/wealdtech/go-eth2-wallet-store-scratch"
 	"os"
 	"path/filepath"
 	"regexp"
@@ -10,8 +13,8 @@ import (
 	"strings"
 
 	"github.com/attestantio/dirk/core"
-	"github.com/attestantio/dirk/services/checker"
 	listerhandler "github.com/attestantio/dirk/services/api/grpc/handlers/lister"
+	"github.com/attestantio/dirk/services/checker"
 	pb "github.com/wealdtech/eth2-signer-api/pb/v1"
 	e2wtypes "github.com/wealdtech/go-eth2-wallet-types/v2"
 )
@@ -51,6 +54,38 @@ func cmdList(args []string) int {
 	distinct := map[string]bool{}
 	ag := &patGen{rng: rng, words: []string{"Account 0", "Account 1", "Account 2", "Account ", "New"}}
 	wg := &patGen{rng: rng, words: []string{"Wallet 1", "Wallet 2", "Wallet "}}
+	// a distributed wallet with two accounts, one of which has participants that are not plain host:port
+	type distAcc struct {
+		Name string
+		Key  []byte
+	}
+	mkDistStore := func() (e2wtypes.Store, []distAcc, error) {
+		st := scratch.New()
+		w, err := distributed.CreateWallet(ctx, "Wallet D", st, keystorev4.New())
+		if err != nil {
+			return nil, nil, err
+		}
+		if err := w.(e2wtypes.WalletLocker).Unlock(ctx, nil); err != nil {
+			return nil, nil, err
+		}
+		var out []distAcc
+		for i, parts := range []map[uint64]string{
+			{1: "signer-test01:8881", 2: "signer-test02:8882", 3: "signer-test03:8883"},
+			{1: "[2001:db8::1]:8881", 2: "host-without-port", 3: "signer-test03:notaport"},
+		} {
+			share, vv := harnessContribution(2, 1, "")
+			var vvb [][]byte
+			for k := range vv {
+				vvb = append(vvb, vv[k].Serialize())
+			}
+			name := fmt.Sprintf("Dist %d", i)
+			if _, err := w.(e2wtypes.WalletDistributedAccountImporter).ImportDistributedAccount(ctx, name, share.Serialize(), 2, vvb, parts, []byte("pass")); err != nil {
+				return nil, nil, err
+			}
+			out = append(out, distAcc{Name: name, Key: share.GetPublicKey().Serialize()})
+		}
+		return st, out, nil
+	}
 	for ci := 0; ci < nCfg; ci++ {
 		fx, err := NewFixture(ctx, 2, 3, false)
 		if err != nil {
@@ -71,6 +106,9 @@ func cmdList(args []string) int {
 		if rng.Chance(70) {
 			pc.Entries["client1"] = append(pc.Entries["client1"], permEntry{W: &Pat{Top: []*rnode{litSeq("Wallet 1"), litSeq("Wallet 2")}}, A: &Pat{Empty: true}, Ops: []string{"All"}})
 		}
+		if rng.Chance(70) {
+			pc.Entries["client1"] = append(pc.Entries["client1"], permEntry{W: &Pat{Top: []*rnode{litSeq("Wallet D")}}, A: &Pat{Empty: true}, Ops: []string{"Access account"}})
+		}
 		// put client1's specific entries first so that they decide before any generated broad entry
 		if es := pc.Entries["client1"]; len(es) > 0 && rng.Chance(50) {
 			for i, j := 0, len(es)-1; i < j; i, j = i+1, j-1 {
@@ -79,7 +117,12 @@ func cmdList(args []string) int {
 		}
 		pc.Clients = append(pc.Clients, "admin")
 		pc.Entries["admin"] = []permEntry{{W: &Pat{Top: []*rnode{litSeq("Wallet 1")}}, A: &Pat{Empty: true}, Ops: []string{"Create account"}}}
-		node, err := NewNode(ctx, NodeOpts{ID: 1, Stores: fx.Stores, Perms: pc.toDirk(), PeersMap: map[uint64]string{1: "signer-test01:10001"}})
+		distStore, distAccs, err := mkDistStore()
+		if err != nil {
+			fmt.Fprintln(os.Stderr, "distributed wallet:", err)
+			return 2
+		}
+		node, err := NewNode(ctx, NodeOpts{ID: 1, Stores: append(append([]e2wtypes.Store{}, fx.Stores...), distStore), Perms: pc.toDirk(), PeersMap: map[uint64]string{1: "signer-test01:10001"}})
 		if err != nil {
 			stats["config.rejected"]++
 			continue
@@ -96,6 +139,9 @@ func cmdList(args []string) int {
 		all := []acc{}
 		for _, a := range fx.Accounts {
 			all = append(all, acc{a.Wallet, a.Name, a.ID, a.Key})
+		}
+		for i, d := range distAccs {
+			all = append(all, acc{"Wallet D", d.Name, 201 + i, d.Key})
 		}
 		var overlay []acc
 		nextID := 100
@@ -118,7 +164,7 @@ func cmdList(args []string) int {
 			client := []string{"client1", "client1", "client1", "client1", "client1", "client1", "client2", "client2", "nobody", ""}[rng.Intn(10)]
 			var paths []listPath
 			for n := 1 + rng.Intn(3); n > 0; n-- {
-				w := []string{"Wallet 1", "Wallet 2", "Wallet 1", "Wallet 2", "Wallet 1", "Wallet 1", "Wallet 9", "wallet 1"}[rng.Intn(8)]
+				w := []string{"Wallet 1", "Wallet 2", "Wallet 1", "Wallet 2", "Wallet 1", "Wallet D", "Wallet D", "Wallet 1", "Wallet 9", "wallet 1"}[rng.Intn(10)]
 				switch r := rng.Intn(20); {
 				case r < 6:
 					paths = append(paths, listPath{Text: w, W: w})
@@ -228,6 +274,9 @@ func cmdList(args []string) int {
 				for _, a := range hres.GetAccounts() {
 					hn = append(hn, a.GetName())
 				}
+				for _, a := range hres.GetDistributedAccounts() {
+					hn = append(hn, a.GetName())
+				}
 				sort.Strings(hn)
 				g2 := append([]string{}, got...)
 				sort.Strings(g2)
@@ -244,8 +293,9 @@ func cmdList(args []string) int {
 				ov = append(ov, fmt.Sprintf("(AC %s %s %s true true)", coqStr(x.W), coqStr(x.N), coqN(x.ID)))
 			}
 			id++
-			lcases = append(lcases, fmt.Sprintf(" LC %s (WD grouped t%d %s %s %s) %s %s %s", coqN(id), ci, coqStrList([]string{"Wallet 1", "Wallet 2"}),
-				coqAccounts(fx), coqList(ov), coqStr(client), coqList(cps), coqList(obs)))
+			baseAccts := "(" + coqAccounts(fx) + " ++ [AC \"Wallet D\" \"Dist 0\" 201%N true true; AC \"Wallet D\" \"Dist 1\" 202%N true true])%list"
+			lcases = append(lcases, fmt.Sprintf(" LC %s (WD grouped t%d %s %s %s) %s %s %s", coqN(id), ci, coqStrList([]string{"Wallet 1", "Wallet 2", "Wallet D"}),
+				baseAccts, coqList(ov), coqStr(client), coqList(cps), coqList(obs)))
 			idx[fmt.Sprint(id)] = fmt.Sprintf("permissions {%s} created %d; ListAccounts(%q) by %q = %v", pc.text(), len(overlay), texts, client, got)
 			distinct[fmt.Sprintf("%d|%s|%v|%d", ci, client, texts, len(overlay))] = true
 			stats[fmt.Sprintf("returned.%d", min(len(got), 5))]++
